@@ -101,6 +101,8 @@ pub fn spaces(tier: Tier) -> Vec<Space<'static>> {
             }
         }));
     }
+    let sd = crate::checks::scale::docs().clone();
+    sp.push(Space::new("scale (big outputs appended after a 3-byte prefix)", sd.len() as u64, move |i, acc| crate::checks::scale::editors(&sd[i as usize], &crate::checks::scale::small_pool(), acc)));
     // batches: explicit-state search where the state is the whole buffer (+ offsets vector)
     let depth = if tier.thorough() { 4 } else { 3 };
     sp.push(Space::new("batch-bfs", 1, move |_, acc| {
